@@ -47,7 +47,7 @@ import (
 // vfc13RdbReplay: the REAL rdbReplayBisync of a second RedisOutput of link `src` (same namespace, same target
 // double; its own unit counter) over the entries the real loader reads from a snapshot of `kvs`. The MULTI blocks
 // the target received are executed at the destination site as snapshot blocks. Returns the requests.
-func (w *vfc13World) vfc13RdbReplay(src int, kvs []vfc20.KV, replaceHashTag bool, thr int) ([]vfc13Req, error) {
+func (w *vfc13World) vfc13RdbReplay(src int, kvs []vfc20.KV, replaceHashTag bool, thr int, policy string) ([]vfc13Req, error) {
 	l := w.links[src]
 	bins, err := vfc20.Load(vfc20.BuildRDB(kvs, vfc20.Opts{Aux: true}), thr, "7.0.0")
 	w.s.Add("hashtag_probe_bins", len(bins))
@@ -56,7 +56,7 @@ func (w *vfc13World) vfc13RdbReplay(src int, kvs []vfc20.KV, replaceHashTag bool
 	}
 	cfg := l.ro.cfg
 	cfg.ReplaceHashTag = replaceHashTag
-	cfg.KeyExists = "replace"
+	cfg.KeyExists = policy
 	cfg.MaxProtoBulkLen = 512 << 20
 	cfg.ReplayRdbEnableRestore = false
 	cfg.Stats = config.OutputStats{DisableLog: true}
@@ -93,90 +93,110 @@ func (w *vfc13World) vfc13RdbReplay(src int, kvs []vfc20.KV, replaceHashTag bool
 // vfc13HashTagProbe: see the head of this file. replay.rerun = "hashtagprobe".
 func vfc13HashTagProbe(t *testing.T, s *vfutil.Session) {
 	for _, bits := range []string{"011", "111", "010"} { // Redis >= 7 (lazy expiry inside MULTI) with DEL / UNLINK, and an older master
-		for _, mode := range []config.ReplayMode{config.ReplayModeSync, config.ReplayModePipeline} {
-			rc := vfc13RedisCfg{bits[0] == '1', bits[1] == '1', bits[2] == '1'}
-			r := vfutil.NewRand(13)
-			w := vfc13NewWorld(t, s, r, rc, rc, "none", mode)
-			w.rerun = "hashtagprobe"
-			base := map[string]interface{}{"redis": bits, "mode": string(mode), "rerun": "hashtagprobe"}
-			lA := w.links[0]
-			tag0 := checkpoint.BisyncSlotTag(0)
+		for mi, mode := range []config.ReplayMode{config.ReplayModeSync, config.ReplayModePipeline} {
+			// dimension audit: every keyExists policy of the snapshot phase, and replaceHashTag off as well as on
+			for pi, policy := range []string{"replace", "ignore", "error", ""} {
+				rh := !(pi == 3 || (pi == 1 && mi == 1)) // off with the default policy and once with "ignore"
+				s.Count("cfg_keyExists_" + map[string]string{"": "default"}[policy] + policy)
+				s.Count(fmt.Sprintf("cfg_replaceHashTag_%v", rh))
+				rc := vfc13RedisCfg{bits[0] == '1', bits[1] == '1', bits[2] == '1'}
+				r := vfutil.NewRand(13)
+				w := vfc13NewWorld(t, s, r, rc, rc, "none", mode)
+				w.rerun = "hashtagprobe"
+				base := map[string]interface{}{"redis": bits, "mode": string(mode), "keyExists": policy, "replaceHashTag": rh, "rerun": "hashtagprobe"}
+				lA := w.links[0]
+				tag0 := checkpoint.BisyncSlotTag(0)
 
-			// 1. a client write at A, forwarded
-			w.client(0, false, []vfc13Cmd{vfc13C("SET", "k0", "v0")}, true)
-			w.linkRun(r, 0, 1)
+				// 1. a client write at A, forwarded
+				w.client(0, false, []vfc13Cmd{vfc13C("SET", "k0", "v0")}, true)
+				w.linkRun(r, 0, 1)
 
-			// 2. the snapshot of A through the real rdbReplayBisync, replaceHashTag on
-			srcLatest := "{" + checkpoint.BisyncKeyPrefix + ":}" + lA.cp + ":latest:{" + tag0 + "}"
-			dstLatest := checkpoint.BisyncLatestCheckpointKey(lA.cp, tag0)
-			srcRoot := "{" + config.CheckpointKey + "}-x"
-			exp := uint64(time.Now().UnixMilli()) + 3600_000
-			// the hash is large enough to be split into several bins by the loader (threshold 256 bytes): every bin of a
-			// withheld key must be withheld, not only the first
-			var big [][]byte
-			for i := 0; i < 60; i++ {
-				big = append(big, []byte(fmt.Sprintf("field-%03d", i)), []byte("client-value-0123456789"))
-			}
-			kvs := []vfc20.KV{
-				{DB: 0, Key: []byte(srcLatest), Type: 4, ExpireAt: exp, Items: big},
-				{DB: 0, Key: []byte(srcRoot), Type: 0, Str: []byte("client-value")},
-				{DB: 0, Key: []byte("{u}ser"), Type: 0, Str: []byte("v")},
-				// the same names WITHOUT the braces are the tool's own keys in a snapshot: they must be withheld (control of the probe)
-				{DB: 0, Key: []byte(checkpoint.BisyncLatestCheckpointKey("othercp", tag0)), Type: 4, Items: [][]byte{[]byte("f"), []byte("x")}},
-			}
-			reqs, err := w.vfc13RdbReplay(0, kvs, true, 256)
-			if err != nil {
-				s.Violate("hashtag-probe-failed", "rdbReplayBisync: "+err.Error(), base)
-				continue
-			}
-			if len(reqs) == 0 {
-				s.Violate("hashtag-probe-failed", "rdbReplayBisync committed no unit", base)
-				continue
-			}
-			// (b) the premise of the no-loop theorems at B after the snapshot
-			site := w.sites[1]
-			for k, e := range site.store {
-				kb := []byte(k)
-				if !vfc13IsReserved(kb) {
+				// 2. the snapshot of A through the real rdbReplayBisync, replaceHashTag on
+				srcLatest := "{" + checkpoint.BisyncKeyPrefix + ":}" + lA.cp + ":latest:{" + tag0 + "}"
+				dstLatest := checkpoint.BisyncLatestCheckpointKey(lA.cp, tag0)
+				srcRoot := "{" + config.CheckpointKey + "}-x"
+				exp := uint64(time.Now().UnixMilli()) + 3600_000
+				// the hash is large enough to be split into several bins by the loader (threshold 256 bytes): every bin of a
+				// withheld key must be withheld, not only the first
+				var big [][]byte
+				for i := 0; i < 60; i++ {
+					big = append(big, []byte(fmt.Sprintf("field-%03d", i)), []byte("client-value-0123456789"))
+				}
+				kvs := []vfc20.KV{
+					{DB: 0, Key: []byte(srcLatest), Type: 4, ExpireAt: exp, Items: big},
+					{DB: 0, Key: []byte(srcRoot), Type: 0, Str: []byte("client-value")},
+					{DB: 0, Key: []byte("{u}ser"), Type: 0, Str: []byte("v")},
+					// the same names WITHOUT the braces are the tool's own keys in a snapshot: they must be withheld (control of the probe)
+					{DB: 0, Key: []byte(checkpoint.BisyncLatestCheckpointKey("othercp", tag0)), Type: 4, Items: [][]byte{[]byte("f"), []byte("x")}},
+				}
+				reqs, err := w.vfc13RdbReplay(0, kvs, rh, 256, policy)
+				if err != nil {
+					s.Violate("hashtag-probe-failed", "rdbReplayBisync: "+err.Error(), base)
 					continue
 				}
-				if e.exp >= 0 && !checkpoint.IsBisyncMarkerKey(k) {
-					m := map[string]interface{}{"shape": "snapshot key replayed into the reserved namespace with an expiry", "redis": bits, "mode": string(mode),
-						"source_key": srcLatest, "target_key": k, "rerun": "hashtagprobe"}
-					s.Violate("client-key-replayed-into-reserved-namespace",
-						fmt.Sprintf("replaceHashTag: the snapshot key %q passed the namespace filter and was written as %q WITH an expiry: a control key other than a marker now expires (premise NsTtl of the no-loop theorems)", srcLatest, k), m)
+				if len(reqs) == 0 {
+					s.Violate("hashtag-probe-failed", "rdbReplayBisync committed no unit", base)
+					continue
 				}
-			}
-			if e, ok := site.store[strings.Replace(strings.Replace(srcRoot, "{", "", 1), "}", "", 1)]; ok && e != nil {
-				m := map[string]interface{}{"shape": "snapshot key replayed under the checkpoint prefix", "redis": bits, "mode": string(mode),
-					"source_key": srcRoot, "rerun": "hashtagprobe"}
-				s.Violate("client-key-replayed-into-reserved-namespace",
-					fmt.Sprintf("replaceHashTag: the snapshot key %q passed the output filter's reserved prefix and was written under %q", srcRoot, config.CheckpointKey), m)
-			}
-			if _, ok := site.store["user"]; !ok {
-				s.Violate("hashtag-probe-failed", "the ordinary key {u}ser was not replayed as user", base)
-			}
-			if _, ok := site.store[checkpoint.BisyncLatestCheckpointKey("othercp", tag0)]; ok {
-				s.Violate("hashtag-probe-failed", "a control key of another link found in the snapshot was replayed", base)
-			}
-			_ = dstLatest
+				site := w.sites[1]
+				if !rh {
+					// replaceHashTag off: every key is replayed under its own name - the braced client keys are client keys
+					for _, k := range []string{"{u}ser", srcLatest, srcRoot} {
+						if _, ok := site.store[k]; !ok {
+							s.Violate("foreign-block-suppressed", "snapshot replay without replaceHashTag: the client key "+k+" did not arrive under its own name", base)
+						}
+					}
+					for w.linkRun(r, 1, 4) {
+					}
+					if w.links[1].halted {
+						s.Violate("tool-block-halts-opposite-link", "the opposite link stopped in the hash-tag probe (replaceHashTag off)", base)
+					}
+					continue
+				}
+				// (b) the premise of the no-loop theorems at B after the snapshot
+				for k, e := range site.store {
+					kb := []byte(k)
+					if !vfc13IsReserved(kb) {
+						continue
+					}
+					if e.exp >= 0 && !checkpoint.IsBisyncMarkerKey(k) {
+						m := map[string]interface{}{"shape": "snapshot key replayed into the reserved namespace with an expiry", "redis": bits, "mode": string(mode),
+							"source_key": srcLatest, "target_key": k, "rerun": "hashtagprobe"}
+						s.Violate("client-key-replayed-into-reserved-namespace",
+							fmt.Sprintf("replaceHashTag: the snapshot key %q passed the namespace filter and was written as %q WITH an expiry: a control key other than a marker now expires (premise NsTtl of the no-loop theorems)", srcLatest, k), m)
+					}
+				}
+				if e, ok := site.store[strings.Replace(strings.Replace(srcRoot, "{", "", 1), "}", "", 1)]; ok && e != nil {
+					m := map[string]interface{}{"shape": "snapshot key replayed under the checkpoint prefix", "redis": bits, "mode": string(mode),
+						"source_key": srcRoot, "rerun": "hashtagprobe"}
+					s.Violate("client-key-replayed-into-reserved-namespace",
+						fmt.Sprintf("replaceHashTag: the snapshot key %q passed the output filter's reserved prefix and was written under %q", srcRoot, config.CheckpointKey), m)
+				}
+				if _, ok := site.store["user"]; !ok {
+					s.Violate("hashtag-probe-failed", "the ordinary key {u}ser was not replayed as user", base)
+				}
+				if _, ok := site.store[checkpoint.BisyncLatestCheckpointKey("othercp", tag0)]; ok {
+					s.Violate("hashtag-probe-failed", "a control key of another link found in the snapshot was replayed", base)
+				}
+				_ = dstLatest
 
-			// 3. the opposite link reads what B's master propagated (monitors of linkRun: nothing comes back, no halt)
-			for w.linkRun(r, 1, 4) {
-			}
+				// 3. the opposite link reads what B's master propagated (monitors of linkRun: nothing comes back, no halt)
+				for w.linkRun(r, 1, 4) {
+				}
 
-			// 4. two hours later link A's syncer switches its recovery format: real clean-up of the retired namespace
-			w.tick(1, 2*3600_000)
-			w.retire(r, 0)
+				// 4. two hours later link A's syncer switches its recovery format: real clean-up of the retired namespace
+				w.tick(1, 2*3600_000)
+				w.retire(r, 0)
 
-			// 5. the opposite link reads again
-			for w.linkRun(r, 1, 4) {
+				// 5. the opposite link reads again
+				for w.linkRun(r, 1, 4) {
+				}
+				if w.links[1].halted {
+					s.Violate("tool-block-halts-opposite-link", "the opposite link stopped in the hash-tag probe", base)
+				}
+				s.Count("hashtag_probe_" + bits + "_" + string(mode))
+				_ = bytes.Equal
 			}
-			if w.links[1].halted {
-				s.Violate("tool-block-halts-opposite-link", "the opposite link stopped in the hash-tag probe", base)
-			}
-			s.Count("hashtag_probe_" + bits + "_" + string(mode))
-			_ = bytes.Equal
 		}
 	}
 }
